@@ -265,6 +265,20 @@ impl Check for C14 {
                         check_tagged_input(ctx, ty, head, false, &x, &body, what);
                     }
                 }
+                // a byte string holding the tagged encoding, with nothing around it
+                let embedded = rcbor::det(&Item::Bytes(tagged_once.clone()));
+                check_tagged_input(ctx, ty, None, false, &embedded, &body, "bstr(T(body))");
+                // heads that are not CBOR: major type 6 with the reserved additional information 28-31,
+                // followed by bytes that spell the registered tag number
+                for ai in [0xdcu8, 0xdd, 0xde, 0xdf] {
+                    for filler in [vec![], t.to_be_bytes().to_vec(), [vec![0u8; 8], t.to_be_bytes().to_vec()].concat(), vec![t as u8], (t as u16).to_be_bytes().to_vec()] {
+                        let mut x = vec![ai];
+                        x.extend_from_slice(&filler);
+                        x.extend_from_slice(&body);
+                        ctx.count("reserved-tag-heads");
+                        check_tagged_input(ctx, ty, None, false, &x, &body, "reserved additional information in the tag head");
+                    }
+                }
                 let others = [t, 55799, t + 1, 16, 18, 98, 0, 61, 24];
                 for outer in others {
                     for inner in [t, 55799, 24, 61] {
